@@ -11,6 +11,7 @@ package main
 // id, idok, idlen, at, count, bytes, n, more, v) plus a few fields only Go looks at.
 
 import (
+	"regexp"
 	"encoding/hex"
 	"fmt"
 	"math"
@@ -46,24 +47,66 @@ type AEv struct {
 	MTOK  bool   `json:"mtok"`            // media type is valid UTF-8
 	CT    uint64 `json:"ct,omitempty"`    // custom type code
 	Multi bool   `json:"multi,omitempty"` // multiline comment
+	CmtOK bool   `json:"cmtok"`           // comment text is expressible (commentOK)
 }
 
 func (e AEv) mtOK() bool { return e.MTOK }
 
+// mediaTypeOK: type "/" subtype over RFC 2045 token characters, first character a letter
+// (format definition, independent of the repo's validator)
+var mediaTypeRE = regexp.MustCompile("^[a-zA-Z][a-zA-Z0-9!#$%&'*+.^_`|~{}-]*/[a-zA-Z0-9!#$%&'*+.^_`|~{}-]+$")
+
+func mediaTypeOK(mt string) bool { return utf8.ValidString(mt) && mediaTypeRE.MatchString(mt) }
+
+// commentOK: the comment text can be written in a document - valid UTF-8; a single-line
+// comment holds no line feed and does not end in a carriage return; in a multi-line comment
+// the delimiters /* */ nest and balance and the text does not end in a lone '/'.
+func commentOK(multi bool, b []byte) bool {
+	if !utf8.Valid(b) {
+		return false
+	}
+	t := string(b)
+	if !multi {
+		return !strings.Contains(t, "\n") && !strings.HasSuffix(t, "\r")
+	}
+	depth := 0
+	for len(t) >= 2 {
+		switch t[:2] {
+		case "/*":
+			depth++
+			t = t[2:]
+		case "*/":
+			depth--
+			if depth < 0 {
+				return false
+			}
+			t = t[2:]
+			if t == "" {
+				return depth == 0
+			}
+		default:
+			t = t[1:]
+		}
+	}
+	return depth == 0 && t != "/"
+}
+
 func recMT(e *AEv, mt string) {
-	ok := utf8.ValidString(mt)
+	ok := mediaTypeOK(mt)
 	e.MT = strings.ToValidUTF8(mt, "?")
 	e.MTOK = ok
 }
 
 func concMT(e AEv) string {
-	if e.mtOK() {
+	if e.mtOK() || !mediaTypeOK(e.MT) {
 		return e.MT
 	}
 	return e.MT + "\xff"
 }
 
-func newEv(m string) AEv { return AEv{M: m, IDOK: true, IDLen: 1, Bytes: []int{}, MTOK: true} }
+func newEv(m string) AEv {
+	return AEv{M: m, IDOK: true, IDLen: 1, Bytes: []int{}, MTOK: true, CmtOK: true}
+}
 
 func (e AEv) String() string {
 	var sb strings.Builder
@@ -324,6 +367,7 @@ func (r *Recorder) OnComment(multi bool, contents []byte) {
 	e := newEv("OnComment")
 	e.Multi = multi
 	e.Bytes = bytesToInts(contents)
+	e.CmtOK = commentOK(multi, contents)
 	r.add(e)
 	if r.Next != nil {
 		r.Next.OnComment(multi, contents)
@@ -843,6 +887,13 @@ func InvokeV(recv events.DataEventReceiver, e AEv, vb *volatileBuf) {
 	case "OnPadding":
 		recv.OnPadding()
 	case "OnComment":
+		if !e.CmtOK && commentOK(e.Multi, data) { // the model's "inexpressible comment" made concrete
+			if e.Multi {
+				data = append(append([]byte{}, data...), "*/x"...)
+			} else {
+				data = append(append([]byte{}, data...), "\ny"...)
+			}
+		}
 		recv.OnComment(e.Multi, data)
 	case "OnNull":
 		recv.OnNull()
